@@ -565,3 +565,11 @@ func (fl *Flow) markBranches() {
 
 // Branch returns the break/continue/goto statement a CFG node stands for.
 func (fl *Flow) Branch(n ast.Node) *ast.BranchStmt { return fl.marks[n] }
+
+// NewFlowLit builds the flow view of a function literal that occurs inside f
+// (its parameters are the literal's own).
+func NewFlowLit(f *Func, lit *ast.FuncLit) *Flow {
+	decl := &ast.FuncDecl{Name: &ast.Ident{Name: f.Decl.Name.Name + "$lit", NamePos: lit.Pos()}, Type: lit.Type, Body: lit.Body}
+	sub := &Func{Pkg: f.Pkg, Decl: decl, Obj: f.Obj, Prog: f.Prog}
+	return NewFlow(sub)
+}
